@@ -143,6 +143,9 @@ impl FadeModel {
 	}
 	fn amp_at(&self, a: f64) -> f64 {
 		let db = (self.prev_db as f32 + (self.value_db as f32 - self.prev_db as f32) * a as f32) as f64;
+		if (db + 60.0).abs() < 2e-3 {
+			EDGE.with(|e| e.set(true));
+		}
 		if db <= -60.0 {
 			0.0
 		} else if db == 0.0 {
@@ -151,6 +154,12 @@ impl FadeModel {
 			10f64.powf(db / 20.0)
 		}
 	}
+}
+
+thread_local! {
+	/// a gain was evaluated within 2e-3 dB of the -60 dB edge (0.001 or exactly 0, depending on the
+	/// last bit of f32 arithmetic)
+	static EDGE: std::cell::Cell<bool> = const { std::cell::Cell::new(false) };
 }
 
 #[derive(Debug, Clone)]
@@ -532,7 +541,9 @@ fn run_case(c: &Case) -> Result<(bool, bool, bool), Failure> {
 			let pos_now = both!(&h, x => x.position());
 			sound.process(&mut out, dt, &info);
 			streamctl::set_callback_active(false);
+			EDGE.with(|e| e.set(false));
 			let gains = m.chunk(c.chunk, dt, ticks, true);
+			let edge_chunk = EDGE.with(|e| e.get());
 			let s_impl = both!(&h, x => x.state());
 			model_states.push(m.state);
 			impl_states.push(s_impl);
@@ -574,7 +585,7 @@ fn run_case(c: &Case) -> Result<(bool, bool, bool), Failure> {
 						for (i, f) in out.iter().enumerate() {
 							let want = DC.0 as f64 * g[i];
 							// (a gain that lands within a hair of -60 dB is 0.001 or exactly 0: both are right)
-							let at_edge = ((g[i] - 0.001).abs() < 1e-6 && f.left == 0.0) || (g[i] == 0.0 && (f.left as f64 - 0.001 * DC.0 as f64).abs() < 1e-6);
+							let at_edge = edge_chunk && (f.left == 0.0 || (f.left as f64 - want).abs() <= 0.0011 * DC.0 as f64);
 							// "exactly" silence / unity is asserted once the reference fade is over; while it
 							// is still running a value that merely rounds to 0 dB or -60 dB proves nothing
 							let fade_over = m.fade.tween.is_none();
